@@ -21,6 +21,7 @@ PLAN = {
     "c15_state": ["asan"],
     "c10_exc": ["asan"],
     "c20_loc": ["asan"],
+    "c11_life": ["asan"],
     "c13_threads": ["tsan"],
 }
 
